@@ -41,6 +41,10 @@ class Config:
         if self.tree:
             return (f"vh::run_case_tree< {g.ns}::tag, {g.nodes[self.root].cpp}, {g.ns}::sel, {g.ns}::act{self.fam}, {ctl}, "
                     f"tao::pegtl::tracking_mode::{'lazy' if self.lazy else 'eager'}, {EOLS[self.eol]} >")
+        if self.lazy == 2:     # over a buffer_input (eager positions, fetched byte by byte)
+            return (f"vh::run_case_buf< {g.ns}::tag, {g.nodes[self.root].cpp}, {g.ns}::act{self.fam}, {ctl}, "
+                    f"tao::pegtl::apply_mode::{'action' if self.a else 'nothing'}, "
+                    f"tao::pegtl::rewind_mode::{'required' if self.m == 'r' else 'optional'}, {EOLS[self.eol]} >")
         return (f"vh::run_case< {g.ns}::tag, {g.nodes[self.root].cpp}, {g.ns}::act{self.fam}, {ctl}, "
                 f"tao::pegtl::apply_mode::{'action' if self.a else 'nothing'}, "
                 f"tao::pegtl::rewind_mode::{'required' if self.m == 'r' else 'optional'}, "
@@ -118,7 +122,7 @@ def parse_traces(text: str, impl: bool = False) -> Dict[str, Trace]:
             cur.tree.append(line)
         elif line.startswith('LS '):
             cur.leaf_sound = line[3:].strip()
-        elif line.startswith('covbad') or line.startswith('SHUF-BAD'):
+        elif line.startswith('covbad') or line.startswith('SHUF-BAD') or line.startswith('COPY-BAD'):
             cur.alerts.append(line)
         elif impl:
             cur.raw_events.append(line)
